@@ -113,6 +113,9 @@ func (t Term) Sx() string {
 
 // SxRaw prints a set in its given order (input to the model keeps list order).
 func (t Term) SxRaw() string {
+	if t.K == 'n' { // a nil value (a ParametersMap entry present without a term)
+		return "(nil)"
+	}
 	if t.K != 'S' {
 		return t.Sx()
 	}
